@@ -35,6 +35,8 @@ def gen_base(rng):
             x = X.add_null(rng, X.gen_balanced(rng, with_costs=False, with_virtual=False))
         elif rng.random() < 0.2:
             x = X.gen_cost_only(rng)        # a sub-display cost in a commodity whose precision depends on what was read before
+        elif rng.random() < 0.25:
+            x = X.gen_plain(rng, elide=rng.random() < 0.4)   # commodity-less amounts: displayed at their own precision
         x.date = '2020/%02d/%02d' % (rng.randrange(1, 13), rng.randrange(1, 29))
         x.orig = i
         xs.append(x)
@@ -126,6 +128,13 @@ def run_variant(ctx, main):
     return st, bal, reg, nrows, err.decode('utf-8', 'replace')
 
 
+def shown(e):
+    """what an account balance shows of one entry: commodity and exact quantity; a commodity-less amount is displayed
+    with its own number of decimals (there is no commodity to take them from), which therefore is part of the report"""
+    s, q, pr = e
+    return (s, q, pr) if not s else (s, q)
+
+
 def model_variant(jid, tree):
     out = lib.run_model('C08', [lib.sx(['files', jid] + tree)])
     bal, pool, n, od = {}, {}, None, False
@@ -208,11 +217,11 @@ def run(ctx, n_override=None):
                                                   impl=str((sorted(ib.items()), nrows))[:600], model=str((sorted(mb.items()), mn))[:600], err=err[-300:]))
             # oracle: identical to the base
             if ref is None:
-                ref = (st, {a: [(s, q) for s, q, _ in v] for a, v in bal.items()}, reg, open(main).read())
+                ref = (st, {a: [shown(e) for e in v] for a, v in bal.items()}, reg, open(main).read())
                 if len(res.samples) < 3:
                     res.samples.append(dict(base=ref[3][:400], balances=str(sorted(ref[1].items()))[:300]))
                 continue
-            b2 = {a: [(s, q) for s, q, _ in v] for a, v in bal.items()}
+            b2 = {a: [shown(e) for e in v] for a, v in bal.items()}
             if st != ref[0]:
                 res.violations.append(dict(key='status-differs:' + kind, desc='exit status %s vs %s for the base' % (st, ref[0]),
                                            case=dict(base=ref[3], variant=main, text=open(main).read()), observed=str(st), required=str(ref[0])))
